@@ -529,7 +529,7 @@ Section Local.
       pose proof (open_local r s _ old A Eo) as L. apply man_local_parts in L as [LF' LI'].
       apply man_local_parts. cbn [set_frags m_frags m_indices]. split; assumption.
     - apply commit_local; [exact A|]. apply man_local_parts. cbn [set_meta m_frags m_indices]. split; assumption.
-    - destruct (open r v s); [|exact A]. intros v0 m H. destruct H as [H|H]; [inversion H | eapply A; exact H].
+    - destruct (open r v s) as [mt|]; [|exact A]. intros v0 m H. destruct H as [H|H]; [inversion H | eapply A; exact H].
     - intros v m H. apply In_del in H. eapply A. exact H.
     - intros v m H. unfold cleanup in H. apply fold_del_In in H. apply fold_del_In in H. eapply A. exact H.
   Qed.
